@@ -226,11 +226,29 @@ class C16(Prop):
                 entries = [["p%02d/%s" % (pos, "file.img"), vals[i]] for pos, i in enumerate(perm)]
                 yield {"op": "load_section", "args": {"entries": entries, "header": True, "seed": n_sec % 5}}
                 n_sec += 1
+        # keys as another tool / a hand / `checksums.checksums[...] = ...` writes them: spellings normpath would change, and PAIRS of keys with
+        # the same normal form in both sort orders - the reader must keep every key exactly as it is in the file (add() never records these)
+        SPELLED = ["./images/boot.iso", "images//boot.iso", "images/./boot.iso", "images/pxeboot/../boot.iso", "images/", "./a", "a/.", "x/../x/../z", "a/b/../../c/"]
+        PAIRS = [("images/efiboot.img", "images/pxeboot/../efiboot.img"), ("z/../a/file", "a/file"), ("./k", "k"), ("k", "k/"), ("d//e", "d/e"), ("d/./e", "d/e"),
+                 ("./a/../b", "b"), ("b", "c/../b"), ("m/n", "m/n/."), ("./q//r/", "q/r")]
+        n_sp = 0
+        for header in (True, False):
+            for key in SPELLED:
+                for kind in ("typed", "bare-ok"):
+                    n_sp += 1
+                    entries = [[key, raw(kind)]] + ([["other/file", raw("typed")]] if n_sp % 2 else [])
+                    yield {"op": "load_section", "args": {"entries": entries, "header": header, "seed": n_sp % 5, "preload": []}}
+            for k1, k2 in PAIRS:
+                for kinds in (("typed", "typed"), ("bare-ok", "typed"), ("typed", "bare-ok")):
+                    n_sp += 1
+                    yield {"op": "load_section", "args": {"entries": [[k1, raw(kinds[0])], [k2, raw(kinds[1])]], "header": header, "seed": n_sp % 5, "preload": []}}
         for _ in range(max(40, budget // 6)):
             k = rng.randint(1, 5)
             entries, keys = [], set()
             for _ in range(k):
                 key = rng.choice(["images/boot.iso", "images/efiboot.img", "LiveOS/squashfs.img", "repodata/repomd.xml", "UP/low", "a b/c", "z"]) + rng.choice(["", "0", "1"])
+                if rng.random() < 0.25:
+                    key = rng.choice(SPELLED + [x for pr in PAIRS for x in pr])
                 if key in keys:
                     continue
                 keys.add(key)
@@ -247,11 +265,19 @@ class C16(Prop):
         safe_keys = ["images/boot.iso", "images/efiboot.img", "LiveOS/squashfs.img", "UP/low", "up/LOW", "a b/c", "\u00e9/\u0663", "a;b", "x" * 200, "None", "0", "a/a/a", "%s"]
         unsafe_keys = ["a:b/c", "a=b", "#x", ";x", "[x]", " lead", "trail ", "a = b"]            # audit A2/A1: the INI format's own delimiters in a PATH
         tpool = ["sha256", "md5", "sha1", "sha512", "MiXed", "SHA256", "m d", "a=b", "a#b", "a;b", "%(x)s", "None", ""]
+        spelled_keys = ["./images/boot.iso", "images//boot.iso", "images/./boot.iso", "images/pxeboot/../boot.iso", "images/", "a/.", "z/../a/file", "./q//r/"]
+        for i, keys in enumerate([[k] for k in spelled_keys] + [["images/efiboot.img", "images/pxeboot/../efiboot.img"], ["z/../a/file", "a/file"], ["./k", "k"],
+                                                               ["k", "k/"], ["d//e", "d/e", "d/./e"], ["b", "c/../b", "./a/../b"]]):
+            table = dict((k, [rng.choice(["sha256", "md5", "sha512"]), "%x" % rng.getrandbits(rng.choice([64, 128]))]) for k in keys)
+            for style in ("item", "assign"):
+                yield {"op": "roundtrip", "args": {"table": sorted(table.items()), "seed": i % 5, "unsafe": False, "style": style, "second": i % 2 == 0}}
         for i in range(max(60, budget // 5)):
             unsafe = i % 6 == 5
             table = {}
             for _ in range(rng.randint(0, 4)):
                 key = rng.choice(safe_keys) + rng.choice(["", "0"])
+                if rng.random() < 0.15:
+                    key = rng.choice(spelled_keys)
                 if unsafe and rng.random() < 0.6:
                     key = rng.choice(unsafe_keys)
                 t = rng.choice(tpool + ["a:b"]) if rng.random() < 0.15 else rng.choice(tpool)
@@ -610,6 +636,11 @@ class C16(Prop):
                         continue
                     if got != list(sp):
                         return {"observed": {"path": k, "raw": v, "got": got}, "required": {"path": k, "entry": list(sp)}, "kind": "wrong-type-or-value"}
+                in_file = set(k for k, _ in a["entries"]) | set(k for k, _ in a.get("preload", []))
+                foreign = sorted(k for k in res["ok"] if k not in in_file and not (not a["header"] and any(e[0].startswith("/") for e in a["entries"])))
+                if foreign:
+                    return {"observed": {"paths_not_in_the_file": foreign, "loaded": res["ok"]}, "required": {"paths": sorted(in_file)},
+                            "kind": "path-not-in-file"}
                 clean = all(":" not in x for tv in res["ok"].values() for x in tv) and all(not re.search(r"^\s|\s$|[:=]|^[#;\[]", k) for k in res["ok"])
                 if clean and r.get("again") is not None and r["again"] != {"ok": res["ok"]} and not any(k.startswith("/") for k, _ in a["entries"]):
                     return {"observed": {"loaded": res["ok"], "after_dump_and_reload": r["again"]}, "required": "what was read survives a write + read", "kind": "reload-differs"}
